@@ -79,8 +79,19 @@ Section SpellDecision.
   (* Dictionary::get_word_metadata(word) = word_map.get_with_chars(word).map(metadata) *)
   Definition get_word_metadata (D : dict) (w : text) : option entry := lookup D (word_id w).
 
-  (* Dictionary::contains_exact_word *)
+  (* Dictionary::contains_exact_word (as of ebb53b3: `found.canonical_spelling.as_slice().normalized() == normalized`
+     — the stored spelling is compared in normalised form too, so an entry stored with a typographic apostrophe
+     matches itself) *)
   Definition contains_exact_word (D : dict) (w : text) : bool :=
+    let n := normalized w in
+    match lookup D (word_id n) with
+    | Some found => text_eqb (normalized (canon found)) n
+    | None => false
+    end.
+
+  (* the comparison before ebb53b3 (`found.canonical_spelling == normalized`): history only, used by the
+     regression witness exact_old_rejects_own_entry *)
+  Definition contains_exact_word_old (D : dict) (w : text) : bool :=
     let n := normalized w in
     match lookup D (word_id n) with
     | Some found => text_eqb (canon found) n
